@@ -1,4 +1,4 @@
-HOOK_COMMITS = ["d4c9662", "221713e", "e216784", "f05d5b0"]
+HOOK_COMMITS = ["d4c9662", "221713e", "e216784", "f05d5b0", "5a0fe85"]
 
 _SRV = ("S-world: the real serveTunnel with scripted handlers against a raw client in a synctest bubble, one stimulus per quiescence; every observation "
         "line (frames emitted, call results, events, stream table, lastSeen, goroutine census) is compared with the Lean model's line in this property's view, "
